@@ -192,6 +192,8 @@ class Extract:
             for (nm, n, prec) in bufs:
                 if n is None and prec.startswith("int:"):
                     args.append(int(prec[4:]) & 0xFFFFFFFF)      # concrete i32 argument
+                elif n is None and prec.startswith("dconst:"):
+                    args.append(dag.const(float(prec[7:])))           # concrete double argument
                 elif n is None:
                     args.append(dag.var(nm, prec=prec))
                 else:
@@ -217,6 +219,8 @@ class Extract:
             for (nm, n, prec) in bufs:
                 if n is None and prec.startswith("int:"):
                     args.append(int(prec[4:]) & 0xFFFFFFFF)
+                elif n is None and prec.startswith("dconst:"):
+                    args.append(dag.const(float(prec[7:])))
                 elif n is None:
                     args.append(dag.var(nm, prec=prec))
                 else:
@@ -259,6 +263,9 @@ class Extract:
         for (nm, n, prec) in bufs:
             if n is None and prec.startswith("int:"):
                 argv.append(ctypes.c_int(int(prec[4:])))
+                continue
+            if n is None and prec.startswith("dconst:"):
+                argv.append(ctypes.c_double(float(prec[7:])))
                 continue
             ct = ctypes.c_double if prec == "d" else ctypes.c_float if prec == "f" else ctypes.c_int
             if n is None:
